@@ -221,7 +221,7 @@ def get_folding_profile_section(
     if profile is None:
         str_ += "Could not determine folding profile\n"
     else:
-        delta = round(Decimal(window[2]), 2)
+        delta = round(Decimal(window[2]), 3)
         start = round(Decimal(window[0]), 3)
         end = round(Decimal(window[1]), 3)
         tol = Decimal("0.0005")
